@@ -60,9 +60,13 @@ def run_witness(dirname, lines, repo=None, features=""):
     """lines: list of (label, one-line rust item). Returns (ok, errors) where errors is a list of
     dicts {label, code, message} (label None if the error is not on a witness line)."""
     repo = repo or F.REPO
+    # one witness crate and target directory per analysed tree: two checks running at the same time on different trees (developer
+    # matrix) must not overwrite each other's Cargo.toml
+    tag = "" if os.path.realpath(repo) == "/repo" else "-" + hashlib.md5(os.path.realpath(repo).encode()).hexdigest()[:8]
+    dirname = dirname + tag
     d, line_map, pkg = _write_crate(dirname, lines, repo, features)
     env = dict(os.environ)
-    env["CARGO_TARGET_DIR"] = os.path.join(WORK, "witness-target")
+    env["CARGO_TARGET_DIR"] = os.path.join(WORK, "witness-target" + tag)
     env["CARGO_NET_OFFLINE"] = "true"
     env.pop("RUSTC_WRAPPER", None)
     env["RUSTFLAGS"] = "-Awarnings"
